@@ -110,8 +110,12 @@ class Client:
     def open(self, name, text):
         self.notify("textDocument/didOpen", {"textDocument": {"uri": self.uri(name), "languageId": "ucg", "version": 1, "text": text}})
 
-    def change(self, name, text):
-        self.notify("textDocument/didChange", {"textDocument": {"uri": self.uri(name), "version": 2}, "contentChanges": [{"text": text}]})
+    def change(self, name, text, decoy=True):
+        # Full-text sync: every content change replaces the whole document, so the LAST one is the
+        # current text. A decoy change with a syntax error goes first so that a server that took
+        # the first (or merged them) publishes something else.
+        changes = ([{"text": "let decoy = ;\n"}] if decoy else []) + [{"text": text}]
+        self.notify("textDocument/didChange", {"textDocument": {"uri": self.uri(name), "version": 2}, "contentChanges": changes})
 
     def close_doc(self, name):
         self.notify("textDocument/didClose", {"textDocument": {"uri": self.uri(name)}})
